@@ -159,11 +159,13 @@ class DemeTree:
             deme.run_metaepoch(self)
 
     def run_sprout(self) -> None:
+        # Only demes that took part in this round can be put to sleep: a deme created by the round starts awake.
+        round_participants = self.active_non_leaves
         deme_seeds = self._sprout_mechanism.get_seeds(self)
         self._do_sprout(deme_seeds)
 
         if "hibernation" in self.config.options and self.config.options["hibernation"]:
-            for _, deme in reversed(self.active_non_leaves):
+            for _, deme in reversed(round_participants):
                 if deme in deme_seeds:
                     if deme._hibernating:
                         self._logger.debug("Deme stopped hibernating", deme=deme.id)
